@@ -248,7 +248,9 @@ CHECKS = {
              "undefined or not an input type (field or directive, behind any wrappers, also when added by an extension), a "
              "missing/undefined root, an object without fields, a union containing itself (also through an extension), a "
              "repeated enum value, a scalar without implementation, a non-awaitable directive hook each make the build fail; the "
-             "engine's interface field-type check accepts only what IsValidImplementationFieldType accepts. The check rewrites "
+             "engine's interface field-type check is exactly IsValidImplementationFieldType; an object that does not honour "
+             "a declared interface (missing field, invalid field type, missing / retyped interface argument, additional "
+             "required argument, undefined or non-interface `implements`) is refused (Proofs/SchemaInterfaces.v). The check rewrites "
              "valid schema models (all type kinds, several interfaces/implementers, unions, input objects, custom and "
              "type-system directives, extensions of every kind, with/without schema definition) with ~45 SDL-level violations; "
              "create_engine must raise and leave no usable engine; the build model must predict built/rejected AND the set of "
